@@ -59,6 +59,11 @@ def chosen_cases(tb, rnd, tier):
     add(comp=['zlib@openssh.com', 'none'])
     add(comp=['zlib', 'zlib@openssh.com'], role='client')
     add(comp=['none', 'foo-comp'])
+    # host-key types the server advertises but never presents (it closes the probe connection): still advertised, still listed
+    c = add(key=['rsa-sha2-512', 'rsa-sha2-256', 'ssh-ed25519'])
+    c['withheld'] = ['rsa-sha2-512', 'rsa-sha2-256', 'ssh-rsa']
+    c = add(key=['ssh-ed25519', 'ecdsa-sha2-nistp256', 'ssh-rsa'])
+    c['withheld'] = ['ssh-ed25519', 'ecdsa-sha2-nistp256']
     # identification strings using the whole printable range (0x20..0x7E: the tilde of Debian backport versions included)
     add(banner='SSH-2.0-OpenSSH_6.0p1 Debian-4+deb7u2~bpo60+1')
     add(banner='SSH-2.0-Srv_1.0 !"#$%&\'()*+,./:;<=>?@[\\]^_`{|}~', role='client')
